@@ -26,11 +26,14 @@ KindLists == {<<"tA">>, <<"tB">>, <<"tA", "tB">>, <<"tB", "tA">>, <<>>}
 
 Absent == [ver |-> 0, owner |-> "", phase |-> "running", fins |-> {}]
 
-VARIABLES res, tracking, touched, last
-vars == <<res, tracking, touched, last>>
+VARIABLES res, tracking, touched, last,
+          tw     \* a SECOND controller of the same runtime that tracks its own (shared-kind) output "tB/t": [tracking, touched, ex]
+mvars == <<res, tracking, touched>>
+vars == <<res, tracking, touched, last, tw>>
 
 Init == /\ res = [k \in KeySet |-> Absent]
         /\ tracking = FALSE /\ touched = {} /\ last = [cmd |-> "init", cls |-> "ok"]
+        /\ tw = [tracking |-> FALSE, touched |-> FALSE, ex |-> FALSE]
 
 (* ---------------------------------------------------------- controller writes *)
 (* <<class, value after>> of a controller write on current value v (owner = Self, default options) *)
@@ -109,11 +112,22 @@ XDestroy(k) == /\ res[k].ver # 0 /\ res[k].fins = {}
                /\ res' = [res EXCEPT ![k] = Absent]
                /\ last' = [cmd |-> "xdestroy", cls |-> "ok"] /\ UNCHANGED <<tracking, touched>>
 
+(* ------------------------------------------------------------ the twin controller *)
+(* its tracking cycle is its own: nothing the first controller does (starting, failing, restarting, cleaning up) changes what *)
+(* the twin has touched, and the other way round (the trackers are pooled objects in the code)                                *)
+TStart   == /\ ~tw.tracking /\ tw' = [tw EXCEPT !.tracking = TRUE, !.touched = FALSE]
+            /\ last' = [cmd |-> "tstart", cls |-> "ok"] /\ UNCHANGED mvars
+TModify  == /\ tw' = [tw EXCEPT !.ex = TRUE, !.touched = tw.tracking]
+            /\ last' = [cmd |-> "tmodify", cls |-> "ok"] /\ UNCHANGED mvars
+TCleanup == /\ tw.tracking /\ tw' = [tracking |-> FALSE, touched |-> FALSE, ex |-> tw.ex /\ tw.touched]
+            /\ last' = [cmd |-> "tcleanup", cls |-> "ok"] /\ UNCHANGED mvars
+TwinStep == TStart \/ TModify \/ TCleanup
+
 CtrlStep == \/ Start \/ Restart
             \/ \E ks \in KindLists : Cleanup(ks)
             \/ \E op \in WriteOps, k \in KeySet : Write(op, k)
 ExtStep == \E k \in KeySet : XCreate(k) \/ XAddFin(k) \/ XRemFin(k) \/ XDestroy(k)
-Next == CtrlStep \/ ExtStep
+Next == ((CtrlStep \/ ExtStep) /\ UNCHANGED tw) \/ TwinStep
 Spec == Init /\ [][Next]_vars
 
 (* ----------------------------------------------------------------- properties *)
